@@ -690,6 +690,24 @@ def run(R):
             R.fail('C03.REL.2', inst, cu.qual, 'def _clean_up', 'the PIT is not emptied on shutdown', site(cu, cu.f.node))
         else:
             R.ok('C03.REL.2', inst, site(cu, lpn[0].ast))
+        # ------------------------------------------------------------ SIB.2 a Nack finds the node the Interest was registered in
+        R.ob('C03.SIB.2', 'the table key a Nack is looked up under is derived from the Interest name the way the key at registration is: where '
+                          'express_raw_interest drops a trailing implicit-digest component, _on_nack drops it too')
+        ex2 = ctx(R, app + '.express_raw_interest')
+        on2 = ctx(R, app + '._on_nack')
+        strips_reg = any(t.kind == 'test' and 'TYPE_IMPLICIT_SHA256' in full_text(ex2, t.ast) for t in ex2.cfg.nodes)
+        strips_nack = any(t.kind == 'test' and 'TYPE_IMPLICIT_SHA256' in full_text(on2, t.ast) for t in on2.cfg.nodes)
+        pn2 = on2.f.node.args.args[1].arg
+        look = [x for n_ in on2.cfg.nodes for x in n_.walk() if (isinstance(x, ast.Subscript) and self_attr(x.value, trie) and isinstance(x.ctx, ast.Load))
+                or (isinstance(x, ast.Call) and callee_attr(x) == 'get' and self_attr(x.func.value, trie))]
+        R.need(look, f'{on2.qual}: no lookup in self.{trie}')
+        inst = f'{on2.qual} :: lookup key'
+        if strips_reg and not strips_nack:
+            R.fail('C03.SIB.2', inst, on2.qual, 'def _on_nack', f'an Interest whose name ends in an implicit digest is registered under the name without it, but the Nack is looked '
+                   f'up under the full name `{pn2}` (a Nack carries the Interest as sent): nothing is found and the pending Interest ends by time-out instead of '
+                   'InterestNack (repro notes/repro/e21.py)', site(on2, look[0]))
+        else:
+            R.ok('C03.SIB.2', inst, site(on2, look[0]))
         # ------------------------------------------------------------ NUL.1 lifetime 0 is a lifetime
         R.ob('C03.NUL.1', 'the Interest lifetime (optional integer) is tested with `is None`, never by truthiness, where the deadline is computed')
         nuses = 0
